@@ -6,7 +6,7 @@ package main
 // plus per transaction the tokens
 //
 //	I:<store>:<ids>                 IterateIds("true")               (paged cursor path)
-//	QS:<store>:<ids>                QueryIds("true sort by id")      (sorting scanner path)
+//	QS:<store>:<ids>                QueryIds("true sort by <first field of the root store>") (sorting scanner path; compared as a set)
 //	LF:<store>:<id>:<field>:<val>   field values of the entity LoadById returns through <store>
 //	                                (a child store sees the parent's fields; isSystem as b0/b1)
 //
@@ -41,6 +41,13 @@ func applyUpdateSysRule(txIndex int, t *hTx) {
 
 // ---- extra observations ------------------------------------------------------------------------
 
+func rootName(def *sStore) string {
+	if def.Parent != "" {
+		return def.Parent
+	}
+	return def.Name
+}
+
 func (h *harnessDb) readsX() string {
 	var sb strings.Builder
 	_ = h.db.View(func(tx *bbolt.Tx) error {
@@ -51,7 +58,12 @@ func (h *harnessDb) readsX() string {
 				it = append(it, hx(c.Current()))
 			}
 			fmt.Fprintf(&sb, " I:%s:%s", def.Name, strings.Join(it, ","))
-			ids, _, err := gs.QueryIds(tx, "true sort by id limit none")
+			// sorted by a field of the root store, so that the sorting scanner (not the id cursor) answers
+			sortBy := "id"
+			if rd := h.w.store(rootName(def)); rd != nil && len(rd.Fields) > 0 {
+				sortBy = rd.Fields[0].Name
+			}
+			ids, _, err := gs.QueryIds(tx, "true sort by "+sortBy+" limit none")
 			q := make([]string, 0, len(ids))
 			for _, id := range ids {
 				q = append(q, hxs(id))
@@ -91,8 +103,27 @@ func (h *harnessDb) readsX() string {
 }
 
 // runTxX = runTx + the extra observation tokens, inserted before the ST marker
+// runTxSafe: a panic of the library inside the transaction is reported as the result "panic" (bbolt and
+// boltz release their locks and roll back in deferred calls), so that one failing input does not end the run
+func (h *harnessDb) runTxSafe(t *hTx) (obs string) {
+	defer func() {
+		if r := recover(); r != nil {
+			var sb strings.Builder
+			sb.WriteString("TX R panic ROLLBACK")
+			sb.WriteString(h.reads())
+			sb.WriteString(" ST")
+			for _, f := range h.facts() {
+				sb.WriteString(" " + f)
+			}
+			sb.WriteString(" | ")
+			obs = sb.String()
+		}
+	}()
+	return h.runTx(t)
+}
+
 func (h *harnessDb) runTxX(t *hTx) string {
-	obs := h.runTx(t)
+	obs := h.runTxSafe(t)
 	extra := h.readsX()
 	k := strings.Index(obs, " ST")
 	for k >= 0 {
